@@ -222,6 +222,11 @@ def gen_op(r, info, nslots, enabled=None):
         op = {"op": "helper", "what": what, "flag": r.random() < 0.5}
         if what in ("broadcast_tooffsets64", "setitem_field"):
             op["other"] = r.randrange(nslots)
+        if what == "broadcast_tooffsets64" and r.random() < 0.6:
+            # the array's own list lengths, some of them changed: the broadcast that fits (all zero) or one that has to
+            # be refused - a list longer or shorter than asked for, early or late in the array
+            del op["other"]
+            op["deltas"] = r.choice([[0], [0], [-1], [-2, 0], [0, 0, -1], [1], [0, 1], [-1, 1], [0, 0, 0, -3]])
         if what == "setitem_field":
             # a name the record does not have yet (setitem_field appends; a record with the same key twice is not
             # something the Python layer ever builds)
@@ -370,7 +375,8 @@ def apply(node, op, a, slot_handle, tmp, before=None):
         return node.op(30, a)
     if k == "helper":
         return node.op(31, a, slot_handle(op["other"]) if "other" in op else 0,
-                       iargs=[HELPERS.index(op["what"]), 1 if op["flag"] else 0], sarg=op.get("key", ""))
+                       iargs=[HELPERS.index(op["what"]), 1 if op["flag"] else 0] + list(op.get("deltas") or []),
+                       sarg=op.get("key", ""))
     if k == "getitem_nothing":
         return node.op(24, a)
     if k == "numbers_to_type":
